@@ -36,6 +36,23 @@ class StubDH(object):
         return (b + a) / 2.0
 
 
+class SpreadSource(object):
+    """A data source quoting a spread around another source: bid = inner bid, ask = inner ask x (1 + spread).
+    (The shipped CSV source quotes bid == ask; the handler and its callers are written against get_bid / get_ask.)"""
+
+    def __init__(self, inner, spread):
+        self.inner, self.spread = inner, spread
+
+    def get_bid(self, dt, asset):
+        return self.inner.get_bid(dt, asset)
+
+    def get_ask(self, dt, asset):
+        return self.inner.get_ask(dt, asset) * (1.0 + self.spread)
+
+    def get_assets_historical_closes(self, start_dt, end_dt, assets):
+        return self.inner.get_assets_historical_closes(start_dt, end_dt, assets)
+
+
 def fee_model(fee):
     """fee: None -> ZeroFeeModel, 'default' -> PercentFeeModel(), [c, t] -> PercentFeeModel(c, t)"""
     q = load()
